@@ -162,6 +162,41 @@ func registerIntrinsics(e *Exec) {
 		e.mapAll = a[0].(*Term).IsTrue()
 		return nil
 	}
+	in["vh:vhStubNested"] = func(e *Exec, a []Value, _ *ssa.CallCommon) Value {
+		e.stubNested = a[0].(*Term).IsTrue()
+		return nil
+	}
+	// assume-guarantee stub for nested message decoding: returns nil or an opaque error
+	in["(google.golang.org/protobuf/proto.UnmarshalOptions).Unmarshal"] = func(e *Exec, a []Value, call *ssa.CallCommon) Value {
+		if !e.stubNested {
+			fn := e.Prog.ImportedPackage("google.golang.org/protobuf/proto").Type("UnmarshalOptions")
+			m := e.Prog.LookupMethod(fn.Type(), fn.Package().Pkg, "Unmarshal")
+			return e.callNoIntrinsic(m, a)
+		}
+		if e.choice(2) == 1 {
+			return e.opaqueIface("error", "nested unmarshal error")
+		}
+		return &Iface{}
+	}
+	in["vh:vhSnapshot"] = func(e *Exec, a []Value, _ *ssa.CallCommon) Value {
+		sl := a[0].(*Slice)
+		var arr ArrExpr
+		if sl.Obj != nil {
+			arr = sl.Obj.Bytes
+		}
+		e.snaps = append(e.snaps, arr)
+		return e.c64(int64(len(e.snaps) - 1))
+	}
+	// vhUnchanged: no store/copy/append touched the backing array since the snapshot
+	in["vh:vhUnchanged"] = func(e *Exec, a []Value, _ *ssa.CallCommon) Value {
+		sl := a[0].(*Slice)
+		k := e.argInt(a[1], "snapshot id")
+		var arr ArrExpr
+		if sl.Obj != nil {
+			arr = sl.Obj.Bytes
+		}
+		return e.tb.Bool(arr == e.snaps[k])
+	}
 	in["vh:vhNote"] = func(e *Exec, a []Value, _ *ssa.CallCommon) Value { return nil }
 	in["vh:vhSymbolic"] = func(e *Exec, a []Value, _ *ssa.CallCommon) Value { return e.tb.True }
 
@@ -197,6 +232,11 @@ func (e *Exec) catch(f func()) (gp *goPanic) {
 func (e *Exec) assertSeqEq(id string, la, lb *Term, a, b func(*Term) *Term) {
 	tb := e.tb
 	e.assertProp(id+".len", tb.Eq(la, lb))
+	if (la.IsConst() && la.Val == 0) || (lb.IsConst() && lb.Val == 0) {
+		// nothing to compare pointwise
+		e.assertProp(id+".bytes", tb.True)
+		return
+	}
 	j := e.freshInternal("sk."+id, 64)
 	inr := tb.And(tb.Sle(e.c64(0), j), tb.Slt(j, la))
 	e.assertProp(id+".bytes", tb.Implies(inr, tb.Eq(a(j), b(j))))
@@ -264,6 +304,30 @@ func registerLibStubs(e *Exec) {
 		}
 		return e.tb.Ult(e.tb.Const(64, 0x7ff0000000000000), e.tb.BvAnd(t, e.tb.Const(64, 0x7fffffffffffffff)))
 	}
+
+	// protobuf-go internals that are unsafe/reflection based
+	const impl = "google.golang.org/protobuf/internal/impl."
+	in["("+impl+"Export).NewError"] = newErr("protoimpl.X.NewError")
+	in["("+impl+"Export).MessageStateOf"] = func(e *Exec, a []Value, call *ssa.CallCommon) Value {
+		// a detached, never-read MessageState
+		var t types.Type = types.Typ[types.Int]
+		if call != nil {
+			if sig, ok := call.Value.Type().(*types.Signature); ok && sig.Results().Len() == 1 {
+				if pt, ok := sig.Results().At(0).Type().(*types.Pointer); ok {
+					t = pt.Elem()
+				}
+			}
+		}
+		o := e.newObj(ObjCell, t)
+		o.Val = e.tb.Const(64, 0)
+		o.Label = "messageState"
+		return &Ptr{Obj: o}
+	}
+	in["(*"+impl+"messageState).StoreMessageInfo"] = nop
+	in["(*"+impl+"messageState).LoadMessageInfo"] = func(e *Exec, a []Value, call *ssa.CallCommon) Value { return &Ptr{} }
+	in["("+impl+"Export).MessageStringOf"] = opaqueStr
+	in["("+impl+"Export).EnumStringOf"] = opaqueStr
+	in["google.golang.org/protobuf/proto.checkInitialized"] = func(e *Exec, a []Value, call *ssa.CallCommon) Value { return &Iface{} }
 
 	// sync: single goroutine
 	in["(*sync.Mutex).Lock"] = nop
